@@ -15,7 +15,7 @@ from sa.ctx import Ctx, short, stmt_key
 from sa.cfg import NORMAL, describe_path
 from sa.report import Report
 from sa import pat, lattice
-from sa.util import fact_in
+from sa.util import fact_in, node_stores_attr
 from rules.C08 import cfg_root
 
 
@@ -328,6 +328,43 @@ class C18:
                   "NotificationManager.stop signals the loop without enqueuing the stop marker first (the blocking get never returns)")
 
 
+    def l10_l11(self):
+        rep, ctx = self.rep, self.ctx
+        rep.rule("C18.L10", "a service that stops itself from inside its loop (stop(forever=False) reached from do()) does so only when no stop is pending "
+                 "(guard `self.stopped` false): a final stop() can never be downgraded to a restartable one", 1)
+        n = 0
+        for c_ in [self.R] + self.R.all_subclasses():
+            do = c_.methods.get("do")
+            if do is None:
+                continue
+            for call in ctx.own_nodes(do):
+                if isinstance(call, ast.Call) and isinstance(call.func, ast.Attribute) and call.func.attr == "stop" and \
+                        (pat.match("super().stop($$$)", call) is not None or pat.match("self.stop($$$)", call) is not None):
+                    fv = [k.value for k in call.keywords if k.arg == "forever"] + call.args[:1]
+                    final = bool(fv) and isinstance(fv[0], ast.Constant) and fv[0].value is True
+                    if final:
+                        continue
+                    n += 1
+                    rep.check("C18.L10", "%s|self-stop" % short(do.qname), ctx.line(do, call), fact_in(ctx.facts_at(do, call), "self.stopped", False),
+                              "self-stop only when not already stopping", "the loop's own stop(forever=False) is not guarded by `not self.stopped`: it overwrites the "
+                              "__shutdown flag of a final stop() that is in progress (the service can be restarted, done() is skipped)")
+        if n == 0:
+            raise AnalysisError("no self-stop found in any Runnable.do (NotificationManager.do changed)")
+        rep.rule("C18.L11", "start() clears the stop request (__stopping = False) only after all its refusals: no path leads from that store to a raise, "
+                 "so a refused start never revives a loop that was asked to stop", 1)
+        f = self.R.methods["start"]
+        g = ctx.cfg(f)
+        st = [x for x in g.nodes if node_stores_attr(x, "__stopping")]
+        if not st:
+            raise AnalysisError("Runnable.start no longer clears __stopping")
+        raises = [x for x in g.nodes if x.kind == "stmt" and isinstance(x.ast, ast.Raise)]
+        joins = [x for x in g.nodes if _has_call(x, "$T.join($$$)")]
+        pth = g.reach([x.id for x in st], lambda m: m in raises or m in joins, follow=NORMAL)
+        rep.check("C18.L11", "start|clear-after-refusals", f, pth is None, "__stopping = False after the alive checks",
+                  "start() clears __stopping before it knows the old thread is gone: the old loop keeps running / a refused start cancels a stop request",
+                  witness=describe_path(pth) if pth else None)
+
+
 def run(ctx: Ctx, rep: Report, tier: str):
     c = C18(ctx, rep)
     c.l1()
@@ -339,4 +376,5 @@ def run(ctx: Ctx, rep: Report, tier: str):
     c.l7()
     c.l8()
     c.l9()
+    c.l10_l11()
     rep.assume("threading.Thread / Event / queue.Queue behave as documented")
